@@ -150,6 +150,45 @@ def run(check):
     r_d.violate('insecure by default', 'carbon.conf:<module>', dflt, 'the default of USE_INSECURE_UNPICKLER is `%s`'
                 % (unparse(dflt) if dflt is not None else 'missing'), construct='USE_INSECURE_UNPICKLER default')
 
+  # the setting that selects the unpickler is a real boolean: a configuration value that is not a valid boolean spelling must not
+  # survive as a (truthy) string
+  try:
+    rf = cx.fn('carbon.conf', 'Settings.readFrom')
+  except Exception:
+    rf = None
+  if rf is None:
+    r_d.cannot_decide('carbon.conf.Settings.readFrom not found')
+  else:
+    check.analysed(rf)
+    from ..paths import PathExec
+    from ..symeval import show
+    grf = cx.cfg(rf)
+    stores = [n for n in grf.nodes if n.kind == 'stmt' and isinstance(n.ast, ast.Assign) and any(
+      isinstance(t, ast.Subscript) and isinstance(t.value, ast.Name) and rf.params and t.value.id == rf.params[0] for t in n.ast.targets)]
+    if not stores:
+      r_d.cannot_decide('Settings.readFrom: the statement that stores a value (self[key] = value) was not found')
+    else:
+      px = PathExec(cx, rf, unroll=0, follow_exceptions=True)
+      bad = ok_seen = None
+      for hit in px.run(set(stores)):
+        is_bool = any(pol == 'T' and isinstance(t, tuple) and t[0] == 'cmp' and t[1] == 'Is' and ('param', 'bool') in (t[2], t[3])
+                      for pol, t, a, n in hit.conds if pol in ('T', 'F'))
+        if not is_bool:
+          continue
+        v = hit.term(hit.node.ast.value, px)
+        if isinstance(v, tuple) and v[0] == 'meth' and v[1] == 'getboolean':
+          ok_seen = hit
+        else:
+          bad = (hit, v)
+      if bad is not None:
+        r_d.violate('boolean setting keeps its raw text', rf, bad[0].node.ast, 'for a setting whose default is a bool, Settings.readFrom can '
+                    'store `%s` instead of parser.getboolean(...): an unparsable spelling such as `False ; comment` stays a non-empty, '
+                    'truthy string, and USE_INSECURE_UNPICKLER = <that> selects the plain pickle module' % show(bad[1])[:80])
+      elif ok_seen is not None:
+        r_d.ok('boolean settings are stored as parser.getboolean(...) or the read fails', rf.loc(ok_seen.node.ast))
+      else:
+        r_d.cannot_decide('Settings.readFrom: no path for bool-typed settings recognised')
+
   # ------------------------------------------------------------------ guarded returns
   r_g = check.rule('R-C13-guarded-return', 5, 'globals are returned only past both allow-list checks, by exactly the checked names')
   g = cx.cfg(gu)
